@@ -9,7 +9,7 @@ from sa.build import AnalysisBroken
 from sa.prog import short
 
 UNITS = ['src/core/Node.cpp', 'src/core/ChunkStore.cpp', 'src/daemon/ControlServer.cpp', 'src/libephemeralnet.cpp', 'src/main.cpp']
-LEVEL = 'proof'
+LEVEL = 'other'          # the N1 clauses are discharged for all inputs, but two ownership obligations are known findings: not a complete proof
 EXPLANATION = (
     'R-POST (N1: abstract interpretation over linear forms; the sanitizers only compare and assign, so the domain is exact): '
     'sanitize_config is analysed with every Config field unconstrained (durations range over all 64-bit counts) and its helpers '
